@@ -99,6 +99,10 @@ def run(chk):
         "Coq 8.16.1 kernel + vm_compute",
         "hand-written models coq/Model/Termination.v (TerminationModel, hhmmss, builder) and coq/Model/Search.v (run_a_star loop), "
         "instantiated by coq/Model/TerminationRun.v over coq/Model/SearchRun.v; tied by this correspondence run",
+        "translator/tr_termination.py + translator/rsparse.py + translator/rsmonad.py (the variants of TerminationModel and the bodies of "
+        "terminate_search, explain_termination, test compiled to coq/Gen/TerminationModel.v on every run; fails closed; "
+        "coq/Props/GenTermination.v proves Model/Termination.v equal to them for all models, clocks and counters, so a misreading shows "
+        "up in the limits / pred streams)",
         "hook H2 in termination_model.rs (add-only, cfg compass_verif): scripted clock as a function of the iteration count, "
         "recording of the counters handed to TerminationModel::test",
         "Rust harness harness/src/searchkit.rs, harness/src/bin/c10.rs and this driver",
@@ -119,7 +123,16 @@ def run(chk):
     for name, res in vf.run_translators(which=["turn", "units", "cost"]).items():
         if not res.get("ok", False):
             vf.log("translator %s: %s (owned by another check; its previous output is used)" % (name, res.get("msg")))
-    chk.proofs(extra_targets=["Model/TerminationRun.vo", "Model/E2ERun.vo"])
+    # Gen/TerminationModel.v: the variants of TerminationModel and the bodies of terminate_search / explain_termination / test are
+    # regenerated from the Rust source; Props/GenTermination.v proves Model/Termination.v equal to them for all inputs
+    gres = vf.run_translators(which=["termination"]).get("termination", {"ok": False, "msg": "translator module tr_termination.py missing"})
+    chk.coverage.setdefault("translator", {})["termination"] = {k: gres.get(k) for k in ("ok", "msg", "digest", "files", "changed")}
+    if not gres.get("ok"):
+        chk.violation("broken-correspondence", "translator", {"translator": "tr_termination", "error": gres.get("msg")},
+                      gres.get("msg"), "model/termination/termination_model.rs has the shape the translator knows (fail closed)",
+                      detail="coq/Gen/TerminationModel.v could not be regenerated; the previous definitions (if any) are used below",
+                      found=False, key="translator-termination")
+    chk.proofs(extra_targets=["Model/TerminationRun.vo", "Model/E2ERun.vo"], extra_props=["Props/GenTermination.v"])
     if chk.replay:
         import json
         rj = json.load(open(chk.replay))
